@@ -9,10 +9,15 @@ from harness.common import Failure, Spec, coq_bytes, coq_list
 # case = {"msgs": [{"body": hex, "reads": [int, ...], "lens": [int, ...]}, ...]}   (1-3 messages sent over ONE connection:
 #          getMailFrom returns an address once per message, then None); the legacy single-message form
 #          {"body", "reads", "lens"} is still accepted
+#   refuse (optional) k: the message object's k-th lineReceived call (from 0) raises SMTPServerError(552)
+#   eomfail (optional) true: the Deferred returned by the message object's eomReceived fails
 #   body   the bytes of the file returned by getMailData()
 #   reads  sizes - 1 of successive file.read() results (a file-like may return short reads); afterwards
 #          FileSender's own CHUNK_SIZE applies
 #   lens   sizes - 1 of the network segments in which the client's DATA-phase bytes reach the server
+
+
+MAX_LENGTH = 16384          # basic.LineOnlyReceiver.MAX_LENGTH, inherited by smtp.SMTP
 
 
 class ScriptedFile:
@@ -59,17 +64,46 @@ def _run(msgs):
 
     evs = []
 
+    made = []           # message objects created so far (one per DATA command)
+    phase = {"data": False}
+
     @implementer(smtp.IMessage)
     class Msg:
+        def __init__(self):
+            self.beh = msgs[len(made)] if len(made) < len(msgs) else {}
+            self.n = 0
+            made.append(self)
+
         def lineReceived(self, line):
+            k = self.n
+            self.n += 1
+            if self.beh.get("refuse") is not None and self.beh["refuse"] == k:
+                evs.append("R:" + bytes(line).hex())
+                raise smtp.SMTPServerError(552, b"refused")
             evs.append("L:" + bytes(line).hex())
 
         def eomReceived(self):
             evs.append("EOM")
+            if self.beh.get("eomfail"):
+                d = defer.fail(RuntimeError("disk full"))
+                return d
             return defer.succeed(None)
 
         def connectionLost(self):
             evs.append("LOST")
+
+    class ServerTransport(StringTransport):
+        """records the replies the server writes while the DATA bytes are arriving"""
+
+        def write(self, data):
+            if phase["data"]:
+                for line in bytes(data).split(b"\r\n"):
+                    if line:
+                        evs.append("S:" + line[:3].decode("ascii", "replace"))
+            StringTransport.write(self, data)
+
+        def writeSequence(self, data):
+            self.write(b"".join(data))
 
     @implementer(smtp.IMessageDelivery)
     class Delivery:
@@ -111,7 +145,7 @@ def _run(msgs):
         def sentMail(self, code, resp, numOk, addresses, log):
             sent.append(f"{code}:{numOk}")
 
-    server, st = Server(delivery=Delivery()), StringTransport()
+    server, st = Server(delivery=Delivery()), ServerTransport()
     client, ct = Client(b"me.example.com"), StringTransport()
     server.makeConnection(st)
     client.makeConnection(ct)
@@ -154,10 +188,12 @@ def _run(msgs):
             ct.producer.resumeProducing()
         wire = ct.value()
         ct.clear()
+        phase["data"] = True
         for c in split_by(m["lens"], wire):
             if st.disconnecting:
                 break
             server.dataReceived(c)
+        phase["data"] = False
         per.append((wire, evs[n0:]))
     n1 = len(evs)
     for _ in range(40):
@@ -193,6 +229,8 @@ def expected_lines(body: bytes):
     if not body:
         return "empty"
     lines = body.split(b"\n")[:-1]
+    if any(len(l) + (1 if l[:1] == b"." else 0) > MAX_LENGTH for l in lines):
+        return None             # the server refuses lines longer than LineOnlyReceiver.MAX_LENGTH (documented limit)
     if lines[0] and b":" not in lines[0]:
         lines = [b""] + lines
     return lines
@@ -214,6 +252,16 @@ def _where(body: bytes, reads):
     return "elsewhere"
 
 
+def _expected_events(m, exp):
+    """events the DATA phase of this message must produce, from the body and the message object's behaviour"""
+    calls = [b""] if exp == "empty" else exp
+    rf = m.get("refuse")
+    if rf is not None and rf < len(calls):
+        return ["L:" + c.hex() for c in calls[:rf]] + ["R:" + calls[rf].hex(), "LOST", "S:552"], "552:1"
+    code = "550" if m.get("eomfail") else "250"
+    return ["L:" + c.hex() for c in calls] + ["EOM", "S:" + code], code + ":1"
+
+
 def _oracle_msg(case, k, m, part):
     """one message of the session: its own body decides what must arrive, whatever was sent before it"""
     body = bytes.fromhex(m["body"])
@@ -221,6 +269,8 @@ def _oracle_msg(case, k, m, part):
     if exp is None:
         return None
     where = _where(body, m["reads"])
+    if m.get("refuse") is not None:
+        where += "/message-refuses-line"
     if k > 0:
         where += "/message-%d-of-session" % (k + 1)
     if part == "w=- e=NODATA":
@@ -231,18 +281,16 @@ def _oracle_msg(case, k, m, part):
     if cmds:
         return Failure(case, f"message {k + 1}: body content reached the command interpreter: "
                              f"{[bytes.fromhex(c[2:]) for c in cmds][:3]}", "body-line-executed-as-command/" + where)
-    if evs.count("EOM") != 1 or evs[-1] != "EOM":
-        return Failure(case, f"message {k + 1} ended {evs.count('EOM')} times / not at the terminator: {evs[-4:]}",
-                       "ended-not-at-terminator/" + where)
-    got = [bytes.fromhex(x[2:]) for x in evs[:-1] if x.startswith("L:")]
-    if len(got) != len(evs) - 1:
-        return Failure(case, f"message {k + 1}: unexpected events {evs[:6]}", "unexpected-event")
-    if exp == "empty":
-        # zero lines: the client sends CR LF . CR LF, i.e. one empty line (documented in design.d/C40.md)
-        if got not in ([], [b""]):
-            return Failure(case, f"message {k + 1}: empty body delivered as {got}", "empty-body")
-    elif got != exp:
-        return Failure(case, f"message {k + 1}: server message received {got[:6]} expected {exp[:6]}", "lines-altered/" + where)
+    ends = [x for x in evs if x == "EOM" or x.startswith("S:")]
+    want, _ = _expected_events(m, exp)
+    want_ends = [x for x in want if x == "EOM" or x.startswith("S:")]
+    if ends != want_ends or evs[-len(want_ends):] != want_ends:
+        return Failure(case, f"message {k + 1}: the transfer did not end exactly once at the terminator with {want_ends}: "
+                             f"{evs[-5:]}", "ended-not-at-terminator/" + where)
+    if exp == "empty" and evs == ["EOM", "S:250"] and not m.get("eomfail") and m.get("refuse") is None:
+        return None             # zero lines: delivering no line at all is fine too (design.d/C40.md)
+    if evs != want:
+        return Failure(case, f"message {k + 1}: message object saw {evs[:8]} expected {want[:8]}", "lines-altered/" + where)
     return None
 
 
@@ -263,7 +311,8 @@ def oracle(case, obs):
         hx = lambda b: "C:" + b.hex()
         again = [hx(b"RSET"), hx(b"MAIL FROM:<a@example.com>"), hx(b"RCPT TO:<b@example.com>"), hx(b"DATA")]
         want = again * (len(msgs) - 1) + [hx(b"RSET"), hx(b"QUIT")]
-        if after != want or sent != ",".join(["250:1"] * len(msgs)):
+        codes = ",".join(_expected_events(m, expected_lines(bytes.fromhex(m["body"])))[1] for m in msgs)
+        if after != want or sent != codes:
             return Failure(case, f"dialogue around the messages: {[bytes.fromhex(x[2:]) for x in after]} sentMail={sent}",
                            "dialogue-after-data")
     return None
@@ -345,6 +394,34 @@ def gen(rng, tier):
             reads = _cuts_at_line_starts(rng, body) if rng.random() < 0.4 else _sizes(rng, len(body))
             msgs.append({"body": body.hex(), "reads": reads, "lens": _sizes(rng, 2 * len(body) + 5)})
         cases.append({"msgs": msgs})
+    # message objects that refuse a line part-way (IMessage.lineReceived raises SMTPServerError) or whose eomReceived
+    # fails, with command-looking body lines after the refusal; alone and inside sessions
+    cmdish = [b"NOOP", b"QUIT", b"RSET", b"MAIL FROM:<x@example.com>", b"DATA", b".", b"..", b"", b"a: b", b"body"]
+    for _ in range(220 if quick else 4000):
+        n = rng.choice([1, 1, 2, 3])
+        msgs = []
+        for k in range(n):
+            body = b"".join(rng.choice(cmdish) + b"\n" for _ in range(rng.randrange(1, 7)))
+            m = {"body": body.hex(), "reads": _sizes(rng, len(body)), "lens": _sizes(rng, 2 * len(body) + 5)}
+            r = rng.random()
+            if r < 0.6:
+                m["refuse"] = rng.randrange(0, 6)
+            elif r < 0.8:
+                m["eomfail"] = True
+            msgs.append(m)
+        cases.append({"msgs": msgs})
+    # LineOnlyReceiver.MAX_LENGTH end to end: a body line whose wire form is MAX_LENGTH-2 .. MAX_LENGTH bytes (with and
+    # without a leading '.'), followed by command-looking lines, the network cut at every position around its CR LF
+    for L in (MAX_LENGTH - 2, MAX_LENGTH - 1, MAX_LENGTH, MAX_LENGTH + 1):
+        for dot in (False, True):
+            line = (b"." + b"d" * (L - 2)) if dot else b"x" * L           # dot-stuffed to L bytes on the wire
+            pre = b"Subject: s\n"
+            body = pre + line + b"\nNOOP\nQUIT\n.tail\n"
+            cr = len(pre) + 1 + L                                          # offset of the line's CR in the wire bytes
+            cuts = [[cr - 1], [cr], [cr + 1], [cr - 3, 0, 0, 0, 0, 0]] if quick else \
+                [[cr - 2], [cr - 1], [cr], [cr + 1], [cr + 2], [cr - 3, 0, 0, 0, 0, 0], [cr - 1, 0], []]
+            for lens in cuts:
+                cases.append({"msgs": [{"body": body.hex(), "reads": [], "lens": lens}]})
     for e in ends:                                  # every (ending, start) pair, whole reads
         for st_ in starts:
             cases.append({"msgs": [{"body": e.hex(), "reads": [], "lens": []}, {"body": st_.hex(), "reads": [], "lens": []}]})
@@ -366,6 +443,9 @@ def corpus():
         {"body": b"".hex(), "reads": [], "lens": []},
         {"body": b"\n".hex(), "reads": [], "lens": [0]},
         {"body": b"no header\n".hex(), "reads": [], "lens": [3]},
+        # the message object refuses its second line; NOOP / QUIT follow in the body; a second message after it
+        {"msgs": [{"body": b"a\nb\nNOOP\nQUIT\n".hex(), "reads": [], "lens": [], "refuse": 2},
+                  {"body": b"second\n".hex(), "reads": [], "lens": [], "eomfail": True}]},
         # two messages on one connection: the first body has no final LF, the second starts with a dot-line
         {"msgs": [{"body": b"abc".hex(), "reads": [], "lens": []}, {"body": b".\nQUIT\n".hex(), "reads": [], "lens": []}]},
         {"msgs": [{"body": b"abc".hex(), "reads": [], "lens": []}, {"body": b".foo\n".hex(), "reads": [], "lens": []},
@@ -379,9 +459,10 @@ def to_coq(case):
         body = bytes.fromhex(m["body"])
         if len(body) > 3000:
             return None
+        rf = "(@None nat)" if m.get("refuse") is None else f"(Some {m['refuse']}%nat)"
         out.append(f"({coq_bytes(body)}, {coq_list([f'{n}%nat' for n in m['reads']], 'nat')}, "
-                   f"{coq_list([f'{n}%nat' for n in m['lens']], 'nat')})")
-    return coq_list(out, "(list N * list nat * list nat)")
+                   f"{coq_list([f'{n}%nat' for n in m['lens']], 'nat')}, {rf}, {'true' if m.get('eomfail') else 'false'})")
+    return coq_list(out, "(list N * list nat * list nat * option nat * bool)")
 
 
 def model_equal(case, impl_obs, model_obs):
@@ -450,7 +531,10 @@ SPEC = Spec(
          "'..', 'a:') with every single read-cut position; a malformed stream (CR inside, unterminated last line) for the "
          "correspondence only; sessions of 2-3 messages over one connection (earlier bodies with and without a final LF, "
          "later bodies starting with dot-lines; every ending x start pair); thorough adds dot-lines at FileSender's real "
-         "16384-byte boundary; non-trivial = a body contains a '.'",
+         "16384-byte boundary; message objects that refuse their k-th line (SMTPServerError) or fail eomReceived, bodies of "
+         "command-looking lines, alone and in sessions; body lines of MAX_LENGTH-2..MAX_LENGTH+1 wire bytes (with/without "
+         "leading dot) with the network cut at every position around their CR LF (oracle only: bodies over 3000 bytes skip "
+         "the model); non-trivial = a body contains a '.'",
     trusted=["hand-written model coq/C40/Model.v (tied by this correspondence run only)",
              "bytes.replace semantics (one-byte pattern = flat_map; 3-byte pattern left-to-right non-overlapping) as written "
              "in Model.v, validated by the wire comparison",
